@@ -154,6 +154,10 @@ def finish(pid, tier, seed, level, rule, assumptions, report, t0, extra_coverage
         n = report.counters.get("violations:" + sig, 1)
         print(f"KNOWN-FINDING: property={pid} {sig} :: {known[sig]['what']} (seen in {n} explored cases)")
     os.makedirs(os.path.join(VERIF, "replays"), exist_ok=True)
+    import glob
+
+    for old in glob.glob(os.path.join(VERIF, "replays", f"{pid}-*.json")):
+        os.remove(old)
     seen_sig = {}
     for v in unlisted:
         k = seen_sig.get(v["signature"], 0)
